@@ -583,8 +583,8 @@ func (h *bufHarness) history(c int) {
 			h.walks(2)
 		}
 	}
+	h.dump() // also after an oracle failure: the validator must see the bytes too
 	if !h.stopped {
-		h.dump()
 		h.walks(3)
 	}
 	if grew {
@@ -640,6 +640,9 @@ func (h *bufHarness) sorter() {
 		for li, ls := range bufLesses {
 			if r.Scale < 4 && (ci+int(r.Seed))%len(bufLesses) != li {
 				continue
+			}
+			if n >= 4096 && (ci+int(r.Seed))%len(bufLesses) != li && (ci+int(r.Seed)+2)%len(bufLesses) != li {
+				continue // the largest buffers: two comparison functions each
 			}
 			if h.sortCase(n, ls, (ci+li)%3, (ci*len(bufLesses)+li+int(r.Seed))%4) {
 				return // a failure was reported; the remaining cases would only repeat it
@@ -773,6 +776,8 @@ func (h *bufHarness) sortRange(ls bufLess, start, end int, whole bool) bool {
 	if start >= end {
 		lo, hi = 0, 0
 	}
+	// (a failed assert inside the sorter is log.Fatal: leave the call on stderr for the crash report)
+	fmt.Fprintf(os.Stderr, "buffer:   SortSliceBetween(%d,%d,%s) on %d slices, %d in range\n", start, end, ls.name, len(h.slices), hi-lo)
 	res := bufCall(func() {
 		if whole {
 			h.b.SortSlice(ls.f)
